@@ -164,7 +164,9 @@ impl FileMetadata {
                 smallest = file.smallest_key();
             }
 
-            if file.largest_key() < largest {
+            // The upper bound is the key with the largest user key (callers consult only the user keys of the range);
+            // among files that end on the same user key the bound found first is kept.
+            if file.largest_key().get_user_key() > largest.get_user_key() {
                 largest = file.largest_key()
             }
         }
@@ -201,7 +203,7 @@ impl FileMetadata {
                 smallest = files_key_range.start;
             }
 
-            if files_key_range.end < largest {
+            if files_key_range.end.get_user_key() > largest.get_user_key() {
                 largest = files_key_range.end
             }
         }
